@@ -94,12 +94,33 @@ def contracts(env):
 
 
 def extra(rep, tier, seed, budget):
+    from bounded import integrate as _integ
+    _integ.system_histories(rep, tier, seed, ['C03_green_destinations'])
     from bounded import c05_queue
     from specs import c05
     c05.integrate(rep, c05_queue.run(tier, seed), clauses=('c', 'exception'))
+    # direct merge (queue skipped): native witness, real Bert-E + real git, octopus and no_octopus
+    from bounded import f10_direct_merge
+    from pyvc.cli import write_replay
+    res = f10_direct_merge.run(tier, seed)
+    rep.bounded.append(res)
+    for r in res['results']:
+        if r.get('ok'):
+            continue
+        mode = 'no_octopus' if r.get('no_octopus') else 'octopus'
+        k = 'native:direct_merge:%s:%s' % (mode, 'harness_error' if r.get('error') else 'destination_on_unbuilt_commit')
+        path = write_replay(rep.pid, k, {'case': {'no_octopus': bool(r.get('no_octopus'))}, 'clause': 'f10', 'result': r})
+        rep.violations.append({'key': k, 'what': 'direct merge (%s): %s' % (mode, r.get('error') or r.get('build_status_of_new_tips')),
+                               'replay': path, 'input': r, 'noinput': False})
 
 
 def replay_file(data):
+    if data.get('clause') == 'f10':
+        from bounded import f10_direct_merge
+        return f10_direct_merge.replay(data['case'])
+    from bounded import integrate as _integ
+    if isinstance(data.get('case'), dict) and ('events' in data['case'] or 'fault' in data['case']):
+        return _integ.replay(data)
     from specs import c05
     return c05.replay_file(data)
 
